@@ -540,8 +540,15 @@ class SVGPath(SVGShape, SVGCommandSeq):
         if not inplace:
             target = copy.deepcopy(self)
 
+        # judge each subpath with this path's own paint (stroke, fill rule...):
+        # a bare path would call a stroked open subpath empty
+        def might_paint(subpath):
+            probe = copy.deepcopy(self)
+            probe.d = subpath
+            return probe.might_paint()
+
         target.d = " ".join(
-            subpath for subpath in self.subpaths() if SVGPath(d=subpath).might_paint()
+            subpath for subpath in self.subpaths() if might_paint(subpath)
         )
 
         return target
